@@ -433,7 +433,8 @@ pub struct Limits {
 pub fn gen_script(r: &mut Rng, name: &str, metric: &str, dim: usize, lim: &Limits, thorough: bool) -> Script {
     let good = good_vecs(dim);
     let kinds = vec_kinds(dim);
-    let ids_boundary: [(u64, &str); 5] = [(0, "0"), (1, "1"), (U32MAX, "2^32-1"), (U32MAX + 1, "2^32"), (u64::MAX, "u64::MAX")];
+    // 2^32 + l for a live local id l: out of range, and an alias of document l if the range check is lost
+    let ids_boundary: [(u64, &str); 7] = [(0, "0"), (1, "1"), (U32MAX, "2^32-1"), (U32MAX + 1, "2^32"), (U32MAX + 2, "2^32+1"), (U32MAX + 4, "2^32+3"), (u64::MAX, "u64::MAX")];
     let metas: Vec<Meta> = vec![vec![], vec![("a".into(), "b".into())], vec![("a".into(), "c".into()), ("t".into(), "x".into())]];
     let gv = |r: &mut Rng| Vecr::of(r.pick::<Vec<f32>>(&good[..]));
     let gm = |r: &mut Rng| r.pick(&metas[..]).clone();
